@@ -82,29 +82,101 @@ Definition bop_name (o : bop) : string :=
   | And => "And" | Or => "Or" | Nse => "Nse" | Like => "Like" | ILike => "ILike"
   end.
 
-Fixpoint show (e : sexpr) : string :=
+(** AND/OR chains are flattened (DuckDB's transformer merges nested conjunctions of the same kind) *)
+Definition is_conj (o : bop) : bool := match o with And | Or => true | _ => false end.
+Definition same_conj (ctx : option bop) (o : bop) : bool :=
+  match ctx with Some o' => is_conj o && bop_eqb o o' | None => false end.
+
+Fixpoint show_in (ctx : option bop) (e : sexpr) : string :=
   match e with
   | SCol n => n
   | SLit v => showv v
-  | SParen e => show e
-  | SBin o a b => cat [bop_name o; "("; show a; ","; show b; ")"]
-  | SNot e => cat ["Not("; show e; ")"]
-  | SNeg e => cat ["Neg("; show e; ")"]
-  | SIsNull e => cat ["IsNull("; show e; ")"]
-  | SIn e vs => cat ["In("; show e; ","; String.concat "," (map showv vs); ")"]
-  | SBetween e lo hi => cat ["Between("; show e; ","; show lo; ","; show hi; ")"]
+  | SParen e => show_in ctx e
+  | SBin o a b =>
+      let sub := if is_conj o then Some o else None in
+      let inner := cat [show_in sub a; ","; show_in sub b] in
+      if same_conj ctx o then inner else cat [bop_name o; "("; inner; ")"]
+  | SNot e => cat ["Not("; show_in None e; ")"]
+  | SNeg e => cat ["Neg("; show_in None e; ")"]
+  | SIsNull e => cat ["IsNull("; show_in None e; ")"]
+  | SIn e vs => cat ["In("; show_in None e; ","; String.concat "," (map showv vs); ")"]
+  | SBetween e lo hi => cat ["Between("; show_in None e; ","; show_in None lo; ","; show_in None hi; ")"]
   | SCase bs => cat ["Case("; showb bs; ")"]
-  | SCast e ty => cat ["Cast["; ty; "]("; show e; ")"]
-  | SCall2 f a b => cat [f; "("; show a; ","; show b; ")"]
-  | SCall3 f a b c => cat [f; "("; show a; ","; show b; ","; show c; ")"]
-  | SBracket e i => cat ["Item("; show e; ","; show i; ")"]
+  | SCast e ty => cat ["Cast["; ty; "]("; show_in None e; ")"]
+  | SCall2 f a b => cat [f; "("; show_in None a; ","; show_in None b; ")"]
+  | SCall3 f a b c => cat [f; "("; show_in None a; ","; show_in None b; ","; show_in None c; ")"]
+  | SBracket e i => cat ["Item("; show_in None e; ","; show_in None i; ")"]
   end
 with showb (bs : branches) : string :=
   match bs with
   | BEnd => "N"
-  | BElse e => show e
-  | BWhen c v r => cat [show c; ","; show v; ","; showb r]
+  | BElse e => show_in None e
+  | BWhen c v r => cat [show_in None c; ","; show_in None v; ","; showb r]
   end.
+Definition show (e : sexpr) : string := show_in None e.
+
+(** exact structure (parentheses and nesting kept), used only to compare two model trees *)
+Fixpoint raw (e : sexpr) : string :=
+  match e with
+  | SCol n => n
+  | SLit v => showv v
+  | SParen e => cat ["("; raw e; ")"]
+  | SBin o a b => cat [bop_name o; "<"; raw a; ","; raw b; ">"]
+  | SNot e => cat ["Not<"; raw e; ">"]
+  | SNeg e => cat ["Neg<"; raw e; ">"]
+  | SIsNull e => cat ["IsNull<"; raw e; ">"]
+  | SIn e vs => cat ["In<"; raw e; ","; String.concat "," (map showv vs); ">"]
+  | SBetween e lo hi => cat ["Between<"; raw e; ","; raw lo; ","; raw hi; ">"]
+  | SCase bs => cat ["Case<"; rawb bs; ">"]
+  | SCast e ty => cat ["Cast["; ty; "]<"; raw e; ">"]
+  | SCall2 f a b => cat [f; "<"; raw a; ","; raw b; ">"]
+  | SCall3 f a b c => cat [f; "<"; raw a; ","; raw b; ","; raw c; ">"]
+  | SBracket e i => cat ["Item<"; raw e; ","; raw i; ">"]
+  end
+with rawb (bs : branches) : string :=
+  match bs with
+  | BEnd => "N"
+  | BElse e => raw e
+  | BWhen c v r => cat [raw c; ","; raw v; ","; rawb r]
+  end.
+
+(** ---- shape signature of a mis-grouped tree: the innermost subtree whose own text is not precedence-safe --- *)
+Fixpoint ukind (t : uexpr) : string :=
+  match t with
+  | UCol _ | ULit _ | UPy _ => "leaf"
+  | UBin o _ _ => if is_arith o then "arith" else if is_logic o then "logic" else "cmp"
+  | URBin o _ _ => if is_logic o then "rlogic" else "arith"
+  | UNse _ _ => "nse" | UNeg _ => "neg" | UNot _ => "not"
+  | UIsNull _ => "isnull" | UIsNotNull _ => "isnotnull"
+  | UIsin _ _ => "isin" | UBetween _ _ _ => "between" | ULike _ _ | UILike _ _ => "like"
+  | URlike _ _ | UStartsWith _ _ | UEndsWith _ _ | USubstr _ _ _ => "call"
+  | UWhen _ => "when" | UCast _ _ => "cast" | UAlias a _ => ukind a
+  | UGetItemLit _ _ | UGetItemCol _ _ => "item"
+  end.
+Definition kinds (l : list uexpr) : string := String.concat "," (map ukind l).
+
+Section Culprit.
+Variable c : cfg.
+(** every subtree whose own text is not precedence-safe, innermost-leftmost first *)
+Definition here (t : uexpr) (ops : list uexpr) : list string :=
+  if safe 1 false (build c t) then [] else [cat [ukind t; "("; kinds ops; ")"]].
+Fixpoint culprits (t : uexpr) : list string :=
+  match t with
+  | UCol _ | ULit _ | UPy _ => []
+  | UBin _ a b | UNse a b | UStartsWith a b | UEndsWith a b | UGetItemCol a b =>
+      culprits a ++ culprits b ++ here t [a; b]
+  | URBin _ _ a | UNeg a | UNot a | UIsNull a | UIsNotNull a | UIsin a _ | ULike a _ | UILike a _
+  | URlike a _ | UCast a _ | UAlias a _ | UGetItemLit a _ => culprits a ++ here t [a]
+  | UBetween a b d | USubstr a b d => culprits a ++ culprits b ++ culprits d ++ here t [a; b; d]
+  | UWhen bs => culpritsb bs
+  end
+with culpritsb (bs : ubranches) : list string :=
+  match bs with
+  | UBEnd => []
+  | UBElse e => culprits e
+  | UBWhen cd v r => culprits cd ++ culprits v ++ culpritsb r
+  end.
+End Culprit.
 
 (** ---- one case ------------------------------------------------------------------------------------ *)
 Definition b01 (b : bool) : string := if b then "1" else "0".
@@ -119,7 +191,7 @@ Definition vals (f : env -> option val) : string :=
 (** fields, separated by ";":
     0 SQL text of the model's tokens | 1 canonical tree of the engine's reading (ERR = syntax error)
     | 2 canonical intended tree | 3 flags: in_class, safe, known, reparse=build
-    | 4 predicted engine values per row | 5 PySpark values per row ("#" = row outside the domain) *)
+    | 4 predicted engine values per row | 5 PySpark values per row | 6 unsafe subtrees kind(operand kinds), innermost first, joined by + ("#" = row outside the domain) *)
 Definition check (t : uexpr) : string :=
   let b := build c t in
   let ts := print b in
@@ -130,12 +202,13 @@ Definition check (t : uexpr) : string :=
     match r with ROk e _ => show (canon e) | RErr => "ERR" | RFuel => "FUEL" end;
     show (canon (denote t));
     cat [b01 (in_class c t); b01 (safe 1 false b); b01 (known b);
-         b01 (match r with ROk e _ => String.eqb (show e) (show b) | _ => false end)];
+         b01 (match r with ROk e _ => String.eqb (raw e) (raw b) | _ => false end)];
     match r with
     | ROk e _ => if known e then vals (fun en => if dom en && negb (divzero en e) then Some (seval en e) else None)
                  else "UNKNOWNFN"
     | _ => "-"
     end;
-    vals (fun en => if dom en then Some (ueval en t) else None)
+    vals (fun en => if dom en then Some (ueval en t) else None);
+    String.concat "+" (culprits c t)
   ].
 End Run.
